@@ -119,7 +119,7 @@ def main():
         }],
         "checks": [],
         "not_applicable": [],
-        "notes": "All claimed checks are level 'exploration' (seeded sampling of schedules and fault sequences; one VERIF_SEED decides workload, schedule and fault plan; violations come with a minimised replay file re-run twice in fresh interpreters, or with a block-prefix replay when the defect depends on state left by earlier calls). 23 genuine defects were found and repaired by 'fix:' commits in /repo; they are listed in known_findings.json as 'fixed:' entries whose reproducers run first in every check (no open finding remains, so no check prints KNOWN-FINDING on this tree). Self-tests: ./simcheck selftest determinism | sensitivity (106 mutants incl. 100+ independent seeded changes under seeded/) | findings. DESIGN.md section 10 records what was built, the defects, the seeded changes and the mutation sweeps.",
+        "notes": "All claimed checks are level 'exploration' (seeded sampling of schedules and fault sequences; one VERIF_SEED decides workload, schedule and fault plan; violations come with a minimised replay file re-run twice in fresh interpreters, or with a block-prefix replay when the defect depends on state left by earlier calls). 22 genuine defects were found and repaired by 'fix:' commits in /repo; they are listed in known_findings.json as 'fixed:' entries whose reproducers run first in every check (no open finding remains, so no check prints KNOWN-FINDING on this tree). Self-tests: ./simcheck selftest determinism | sensitivity (106 mutants incl. 100+ independent seeded changes under seeded/) | findings. DESIGN.md section 10 records what was built, the defects, the seeded changes and the mutation sweeps.",
     }
     for p in sorted(CLAIMS):
         c = CLAIMS[p]
